@@ -121,6 +121,8 @@ def run_property(prop: str, tier: str, rules_fn, meta: dict) -> int:
     problem = None
     try:
         ctx = Ctx(prop, tier)
+        # what the normal forms did to the parsed tree before any rule ran (0 / 0 on the tree the rules were written for)
+        ctx.stats["normal_forms"] = {"helper_call_sites_inlined": getattr(ctx.repo, "inlined", 0), "field_aliases_resolved": getattr(ctx.repo, "aliases", 0)}
         rules_fn(ctx)
         if tier == "thorough" and not os.environ.get("SPVERIF_NESTED"):
             from .thorough import adequacy, engine_crosscheck
